@@ -87,6 +87,7 @@ var errExpr = map[string]string{
 	"nilderef":               "gnilp.Name",
 	"nilderef-embedded":      "gholdernil.Deep", // a field promoted through an embedded pointer that is nil (after the same field was read through a non-nil one)
 	"mapfield-ok":            "gst.Nosuch.Deeper",
+	"mapchain-missing":       "gmapany.nokey.deeper", // only the LAST field of a chain may be a missing map key
 	"index-range":            "gsl[5]",
 	"index-len":              "gsl[3]",
 	"index-empty":            "gempty[0]",
@@ -623,6 +624,7 @@ func xBuildOpt(c *xCase, esc jet.SafeWriter, useEsc bool, html bool) (*xWorld, e
 	}))
 	set.AddGlobal("gjoin", func(sep string, parts ...string) string { return strings.Join(parts, sep) })
 	set.AddGlobal("gmap", map[string]string{"hit": "hv"})
+	set.AddGlobal("gmapany", map[string]interface{}{"k": 1})
 	set.AddGlobal("gholder", gHolder{&gEmb{Deep: "deep"}})
 	set.AddGlobal("gholdernil", gHolder{})
 	gHolderOnce.Do(func() {
